@@ -587,9 +587,14 @@ def State.resultVar (sr : State × Res) : State × Option Nat :=
 
 /-- the low 32 bits of the IEEE-754 binary64 pattern of a positive normal double with value `q`, read as `int`
 (what `VarOrConst::get_var()` returns for a constant under `NDEBUG`: the union is not discriminated) -/
+def bitLen (fuel n : Nat) : Nat :=
+  match fuel with
+  | 0 => 0
+  | fuel + 1 => if n = 0 then 0 else bitLen fuel (n / 2) + 1
+
 def low32OfDouble (q : Rat) : Int :=
   let n := q.num.natAbs
-  let l := Nat.log2 n
+  let l := bitLen 1100 n - 1
   let m := if l ≤ 52 then n <<< (52 - l) else n >>> (l - 52)
   let w : Nat := m % (2 ^ 32 : Nat)
   if w < (2 ^ 31 : Nat) then Int.ofNat w else Int.ofNat w - 2 ^ 32
